@@ -659,7 +659,7 @@ class FnTr:
         for p in kids(d):
             if p['kind'] == 'ParmVarDecl':
                 t = self.ty(p)
-                nm = p.get('name') or self.newtmp('bs_unnamed')
+                nm = p.get('name') or 'arg%d' % len(fi.params)
                 fi.params.append((nm, t, p['id']))
         if fi.is_ctor:
             fi.ret = fi.cls
@@ -1060,6 +1060,9 @@ class ExprMixin:
                     return self.alias[r['id']]
                 if r['id'] in getattr(self, 'lit_prov', {}):
                     return 'BS_LOCAL_IT(%s, %s)' % (self.lit_prov[r['id']], r['name'])
+                for pn, pt, pid in self.fi.params:
+                    if pid == r['id']:
+                        return pn
                 return r['name']
             raise NotLvalue()
         if k == 'MemberExpr':
@@ -1667,7 +1670,15 @@ class CallMixin:
                     v = self.value_init(et)
                 vt = self.newtmp()
                 self.emit('%s %s = %s;' % (self.cty(et), vt, v))
-                self.emit('__CPROVER_array_set(%s.d, %s);' % (tmp, vt))
+                # every element equals the fill value: unrolled for small capacities (refutation / replay
+                # instances), one quantified *assumption* otherwise (cbmc's array_set cannot handle rationals)
+                comps = self.components(et)
+                self.emit('#if BS_CAP <= 16')
+                self.emit('for (size_t bs_f = 0; bs_f < BS_CAP; bs_f++) %s.d[bs_f] = %s;' % (tmp, vt))
+                self.emit('#else')
+                self.emit('__CPROVER_assume(__CPROVER_forall { size_t bs_f; (bs_f < BS_CAP) ==> (%s) });' %
+                          ' && '.join('%s.d[bs_f]%s == %s%s' % (tmp, c, vt, c) for c in comps))
+                self.emit('#endif')
                 return tmp
             if a0t.name == 'std::initializer_list':
                 il = strip(ks[0])
@@ -1681,6 +1692,17 @@ class CallMixin:
                     return tmp
             raise ExtractionError('%s: vector construction %s' % (self.fi.cname, ctor))
         raise ExtractionError('%s: construction of %r' % (self.fi.cname, t))
+
+    def components(self, t):
+        """scalar component paths of a value of type t ('' for a scalar)"""
+        if t.name == 'std::array':
+            out = []
+            for i in range(t.args[1]):
+                out += ['.c[%d]%s' % (i, c) for c in self.components(t.args[0])]
+            return out
+        if t.name in BUILTIN:
+            return ['']
+        raise ExtractionError('fill of a vector of %r' % t)
 
     def value_init(self, t):
         if t.name == 'double':
@@ -2022,6 +2044,11 @@ def _unit_get_info(self, fi):
             break
     else:
         raise ExtractionError('%s: signature did not stabilise' % fi.cname)
+    if 'self' in fi.mutated and not fi.is_ctor:
+        # state passing: the parameter `self` keeps the incoming object (contracts and loop invariants call it
+        # self0 inside the body), the body works on the local copy bs_cur
+        lines = [re.sub(r'\bself0\b', 'self', re.sub(r'(?<![.\w])self\b', 'bs_cur', l)) for l in lines]
+        lines.insert(0, '  %s bs_cur = self;' % self.cty(fi.cls))
     fi.body = lines
     fi.sig = tr.signature()
     fi.rstruct = tr.rstruct_def()
